@@ -19,8 +19,10 @@ import inject as inj
 import registry as reg
 import static_facts as sf
 
+# --conversion-check is NOT used: it reports well-defined modular conversions such as m->L = ALPHA_UNDEFINED (-1 -> uint8_t)
+# as 'overflow'; those are not undefined behaviour (false alarm FA-2 in DESIGN.md)
 CBMC_CHECKS = ['--bounds-check', '--pointer-check', '--pointer-overflow-check', '--signed-overflow-check',
-               '--conversion-check', '--div-by-zero-check', '--undefined-shift-check']
+               '--div-by-zero-check', '--undefined-shift-check']
 VERSION_DEFS = ['-DKALIGN_PACKAGE_VERSION="3.4.1"', '-DKALIGN_PACKAGE_NAME="kalign"']
 
 
@@ -156,6 +158,49 @@ def trace_inputs(trace):
     return vals
 
 
+_CONST_LOOP = re.compile(r'for\s*\([^;]*;\s*\w+\s*(<|<=)\s*(\d+)\s*;')
+_CONST_LOOP_DOWN = re.compile(r'for\s*\(\s*(?:int\s+)?\w+\s*=\s*(\d+)\s*;\s*\w+\s*--\s*;')
+
+
+def auto_unwindset(gb, maxn):
+    """loops whose source line has a literal constant bound (`for(...; i < 128; ...)`, `for(i = 23; i--;)`) are bounded
+    by the code itself: give each its own complete unwinding bound, so that --unwind only governs data-dependent loops"""
+    rc, out, err, _ = sh(['cbmc', gb, '--show-loops', '--json-ui'], timeout=120)
+    res = {}
+    try:
+        data = json.loads(out)
+    except Exception:
+        return res
+    cache = {}
+    for e in data:
+        for l in e.get('loops', []):
+            loc = l.get('sourceLocation', {})
+            f, ln = loc.get('file'), loc.get('line')
+            if not f or not ln:
+                continue
+            if f not in cache:
+                try:
+                    cache[f] = open(f, errors='replace').read().split('\n')
+                except Exception:
+                    cache[f] = []
+            lines = cache[f]
+            k = int(ln) - 1
+            if k < 0 or k >= len(lines):
+                continue
+            text = lines[k]
+            m = _CONST_LOOP.search(text)
+            n = None
+            if m:
+                n = int(m.group(2)) + (1 if m.group(1) == '<=' else 0)
+            else:
+                m = _CONST_LOOP_DOWN.search(text)
+                if m:
+                    n = int(m.group(1))
+            if n is not None and 0 < n <= maxn:
+                res[l['name']] = n + 2
+    return res
+
+
 def run_query(q, shape, scratch_root, tier):
     r = QResult(q, shape)
     t0 = time.time()
@@ -200,18 +245,22 @@ def run_query(q, shape, scratch_root, tier):
                 return r
             gb = b_gb
         flags = list(q.get('cbmc_flags', []))
-        if 'unwind' in q:
+        auto_uw = auto_unwindset(gb, q.get('auto_unwind_max', 300)) if q.get('auto_unwind', True) else {}
+        if shape and 'unwind' in shape:
+            flags += ['--unwind', str(shape['unwind'])]
+        elif 'unwind' in q:
             flags += ['--unwind', str(q['unwind'])]
-        uws = dict(q.get('unwindset', {}))
+        uws = dict(auto_uw)
+        uws.update(q.get('unwindset', {}))
         uws.setdefault('kv_mk_msa_raw.0', 130)   # harness helper: zeroing the 128-entry histogram
         for k, v in uws.items():
             flags += ['--unwindset', '%s:%d' % (k, v)]
-        if shape and 'unwind' in shape:
-            flags += ['--unwind', str(shape['unwind'])]
         if not q.get('malloc_may_fail', False):
             flags += ['--no-malloc-may-fail']
         if q.get('leak_check', False):
             flags += ['--memory-leak-check']
+        if q.get('object_bits'):
+            flags += ['--object-bits', str(q['object_bits'])]
         checks = CBMC_CHECKS if q.get('checks', True) else []
         solver = q.get('solver', [])
         cb = ['cbmc', gb] + checks + flags + solver + ['--slice-formula', '--trace', '--json-ui']
